@@ -60,3 +60,30 @@ print("|---|---|---|---|")
 for d in sorted(glob.glob(os.path.join(ROOT, "refactors/*/result.json"))):
     m = json.load(open(d))
     print("| %s | %s | %d | %s |" % (m["refactoring"], m.get("pinned_suite_passes"), len(m["checks"]), ", ".join(m.get("false_alarms", [])) or "none"))
+
+sp = os.path.join(ROOT, "selftest/sweep/index.json")
+if os.path.exists(sp):
+    ix = json.load(open(sp))
+    ck = json.load(open(os.path.join(ROOT, "selftest/sweep/checks.json"))) if os.path.exists(os.path.join(ROOT, "selftest/sweep/checks.json")) else {}
+    an = json.load(open(os.path.join(ROOT, "selftest/sweep/analysis.json"))) if os.path.exists(os.path.join(ROOT, "selftest/sweep/analysis.json")) else {}
+    by = {}
+    for r in ix.values():
+        by[r["screen"]] = by.get(r["screen"], 0) + 1
+    sv = sorted(k for k, r in ix.items() if r["screen"] == "survives")
+    caught = [k for k in sv if ck.get(k, {}).get("caught")]
+    print("\n### Mutation sweep (selftest/mutsweep.py; single-line textual mutants of /repo/src)\n")
+    print("%d mutants generated and screened: %d do not compile, %d fail the pinned suite, **%d compile and pass the pinned suite**." % (len(ix), by.get("compile_fail", 0), by.get("suite_fail", 0), len(sv)))
+    print("Of those %d, %d were run against the quick checks of the properties anchored in the mutated file: %d caught; the others are analysed one by one below.\n" % (len(sv), sum(k in ck for k in sv), len(caught)))
+    print("| surviving mutant not caught at first | checks run | analysis |")
+    print("|---|---|---|")
+    for k in sv:
+        if k in ck and not ck[k].get("caught"):
+            print("| %s | %s | %s |" % (k, " ".join(c for c in ck[k]["checks"] if c != "error"), an.get(k, "**not analysed**")))
+    rr = os.path.join(ROOT, "selftest/sweep/rechecks.json")
+    if os.path.exists(rr):
+        print("\nRe-runs after strengthening (gaps and map corrections):\n")
+        print("| mutant | check | verdict |")
+        print("|---|---|---|")
+        for k, v in sorted(json.load(open(rr)).items()):
+            for c, x in v["checks"].items():
+                print("| %s | %s | %s |" % (k, c, "caught" if x.get("exit") == 1 else "exit %s" % x.get("exit")))
